@@ -49,13 +49,13 @@ def tla_set(xs):
     return "{" + ", ".join('"%s"' % x for x in xs) + "}"
 
 
-def mc_defs(e, k, q, b, buf, f, s, faults=False, ticker=True, clone=True, admit="Known", abort=False, fixa=False, fixb=False):
+def mc_defs(e, k, q, b, buf, f, s, faults=False, ticker=True, clone=True, admit="Known", abort=False, fixa=False, fixb=False, cancels=()):
     t = lambda x: "TRUE" if x else "FALSE"
     return {"EMITTERS": tla_set(["g%d" % (i + 1) for i in range(e)]),
             "FLUSHERS": tla_set(["f%d" % (i + 1) for i in range(f)]),
             "STOPPERS": tla_set(["s%d" % (i + 1) for i in range(s)]),
             "RECSPER": k, "QCAP": q, "BATCH": b, "BUFSIZE": buf, "FAULTS": t(faults), "TICKER": t(ticker),
-            "CLONE": t(clone), "ADMIT": admit, "ABORT": t(abort), "FIXA": t(fixa), "FIXB": t(fixb)}
+            "CLONE": t(clone), "ADMIT": admit, "ABORT": t(abort), "FIXA": t(fixa), "FIXB": t(fixb), "CANCELS": tla_set(cancels)}
 
 
 def slp_defs(e, k, kinds, f, s, mutation="none", admit="Observed", thresh=None):
@@ -139,6 +139,29 @@ DIRECTED = [
          script=E(1, 1) + E(2, 1) + E(1, 2) + E(2, 2) + ["f1@call", "f1@ret", "s1@call"]),
 ]
 
+DIRECTED += [
+    # caller contexts that end ("<proc>@cancel" = the harness cancels that call's context now). TLC: no new deviation arises.
+    # A ForceFlush whose context is done parks record 3 in the export buffer (the export goroutine is held inside Export) and gives
+    # up at the marker; a second one cannot hand record 4 over (buffer full: errPartialFlush); the exporter is released and a third
+    # ForceFlush returns nil: 1..4 each exactly once, in order, and the parked batch is exported as it was handed over.
+    dict(name="C1-abandoned-flush-parks-a-batch", emitters=1, recsPer=4, qcap=8, maxbatch=2, bufsize=1, flushers=3, stoppers=1,
+         script=E(1, 1) + E(1, 2) + POLL + ["x@exp.begin+", "f1@cancel", "f2@cancel"] + E(1, 3) +
+         ["f1@call", "f1@blp.ff.checked", "f1@blp.ff.dequeued", "f1@ret"] + E(1, 4) +
+         ["f2@call", "f2@blp.ff.checked", "f2@blp.ff.dequeued", "f2@ret", "x@exp.begin", "f3@call", "f3@ret", "s1@call"]),
+    # Shutdown's context ends while the poll goroutine is still busy: the final flush is skipped, the exporter chain is shut down
+    # all the same, Shutdown returns an error (no promise); a second Shutdown returns nil at once (the listed D1 shape)
+    dict(name="C2-shutdown-context-ended-skips-final-flush", emitters=1, recsPer=2, qcap=4, maxbatch=1, bufsize=1, flushers=0, stoppers=2,
+         script=E(1, 1) + ["poll@blp.poll.woke", "poll@blp.poll.dequeued+"] + E(1, 2) +
+         ["s1@cancel", "s1@call", "s1@blp.sd.swapped", "s1@blp.xsd.swapped", "s1@exp.shutdown", "s1@ret", "poll@blp.poll.dequeued",
+          "s2@call", "s2@blp.sd.already", "s2@ret"]),
+    # the final flush cannot be handed over (buffer full, exporter held) and Shutdown's context ends: "dropping 1 records" with an
+    # error, the exporter is shut down while an Export is still running (allowed: Shutdown did not wait because its context ended)
+    dict(name="C3-final-flush-abandoned", emitters=1, recsPer=3, qcap=4, maxbatch=1, bufsize=1, flushers=0, stoppers=2,
+         script=E(1, 1) + POLL + ["x@exp.begin+"] + E(1, 2) + POLL + E(1, 3) +
+         ["s1@call", "s1@blp.sd.swapped", "s1@blp.sd.polldone", "s1@blp.xexp.called", "s1@cancel", "s1@blp.sd.flushed",
+          "s1@blp.xsd.swapped", "s1@exp.shutdown", "s1@ret", "x@exp.begin", "s2@call", "s2@blp.sd.already", "s2@ret"]),
+]
+
 # which directed schedule is expected to reproduce which contract violation kinds (binding check, evidence only)
 EXPECT = {
     "D1-flush-during-shutdown": "flush-missed-during-shutdown",
@@ -148,6 +171,7 @@ EXPECT = {
     "D4-enqueue-after-final-flush": "shutdown-missed-raced",
     "D5-flush-overtakes-final-flush": "flush-missed-held-by-shutdown",
     "D6-final-flush-overtaken": "final-flush-overtaken",
+    "C3-final-flush-abandoned": "obs-exporter-shutdown-during-export-context-ended",
 }
 
 
@@ -298,6 +322,7 @@ def impl_validate(ctx, trace_file, label, limit, contract_kinds):
                 stats["agree"] += 1
             elif len(stats["disagree"]) < 5:
                 stats["disagree"].append({"scenario": sc, "name": cfgs[sc].get("name", ""), "contract": want, "model": got[:3]})
+    stats["drift_count"] = len(stats["drift"])
     stats["drift"] = stats["drift"][:5]
     stats["errors"] = stats["errors"][:3]
     return stats
@@ -315,16 +340,20 @@ def run(ctx):
     #      e  k  q  b buf f  s  faults ticker
     fam = [(1, 3, 2, 1, 2, 1, 1, True, True),     # ring overflow, buffer of two, multi-chunk requests (coverage run)
            (2, 1, 2, 2, 1, 1, 2, False, False),   # two stoppers, batch of two
-           (2, 1, 1, 1, 1, 1, 1, False, True),    # two emitters, everything of size one
            (1, 2, 2, 1, 1, 1, 1, True, True)]     # multi-chunk requests + failing exports
+    # caller contexts that end: (config, Cancels)
+    canc = [((1, 2, 2, 1, 1, 1, 1, False, False), ("f1",)), ((1, 2, 2, 1, 1, 1, 1, False, False), ("s1",))]
     if thorough:
-        fam += [(2, 2, 2, 2, 1, 1, 1, False, False), (3, 1, 2, 1, 1, 0, 1, False, True), (2, 1, 1, 1, 1, 2, 1, False, False),
+        canc += [((1, 2, 2, 1, 1, 1, 2, False, False), ("f1", "s1")), ((2, 1, 2, 2, 1, 1, 1, False, True), ("f1", "s1")),
+                 ((1, 2, 2, 1, 1, 2, 1, True, False), ("f1", "f2"))]
+        fam += [(2, 1, 1, 1, 1, 1, 1, False, True), (2, 2, 2, 2, 1, 1, 1, False, False), (3, 1, 2, 1, 1, 0, 1, False, True), (2, 1, 1, 1, 1, 2, 1, False, False),
                 (1, 2, 2, 1, 1, 1, 2, True, True), (2, 1, 2, 2, 1, 1, 2, False, True)] + THOROUGH_EXTRA
     cov_cfg = fam[0]
 
-    def mc(c):
-        return ctx.tlc(S, "MC_BatchLP", "MC_BatchLP.cfg", defines=mc_defs(*c), name="mc-" + cfg_name(*c), timeout=6000,
-                       coverage=(c == cov_cfg), workers=4, must_pass=False, count=False)
+    def mc(c, cancels=()):
+        return ctx.tlc(S, "MC_BatchLP", "MC_BatchLP.cfg", defines=mc_defs(*c, cancels=cancels),
+                       name="mc-" + cfg_name(*c) + ("-ctx-" + "-".join(cancels) if cancels else ""), timeout=6000,
+                       coverage=(c == cov_cfg and not cancels), workers=4, must_pass=False, count=False)
 
     # Small TLC jobs: (a) TLC must find every named deviation when it alone is not admitted (guards against a vacuous
     # contract), and a missing Clone (content-changed) in the no-clone variant of the model; (b) liveness under fairness:
@@ -349,11 +378,15 @@ def run(ctx):
             (3, 2, 2, 1, 2, 2, 0, False), (2, 2, 4, 2, 1, 1, 0, True)] if hooks else []
     nsim = 400 if thorough else 40
 
+    SIM_CANCELS = {(1, 3, 4, 2, 1, 2, 1, False): ("f1", "f2", "s1"), (2, 2, 2, 1, 1, 2, 2, False): ("f1", "s1")}
+    sims += list(SIM_CANCELS) if hooks else []
+
     def simulate(c):
         e, k, q, b, buf, f, s, faults = c
-        return ctx.tlc(S, "MC_BatchLPSim", "MC_BatchLPSim.cfg", defines=mc_defs(e, k, q, b, buf, f, s, faults), workers=1,
-                       simulate="num=%d" % nsim, depth=400, name="sim-" + cfg_name(e, k, q, b, buf, f, s, faults), timeout=1800,
-                       must_pass=False, count=False)
+        cs = SIM_CANCELS.get(c, ())
+        return ctx.tlc(S, "MC_BatchLPSim", "MC_BatchLPSim.cfg", defines=mc_defs(e, k, q, b, buf, f, s, faults, cancels=cs), workers=1,
+                       simulate="num=%d" % nsim, depth=400, name="sim-" + cfg_name(e, k, q, b, buf, f, s, faults) + ("-ctx" if cs else ""),
+                       timeout=1800, must_pass=False, count=False)
 
     # (d) the two sketched repairs of the shutdown races. Claimed effect of each (TLC decides): with the switch on, the
     # model with Admit = Known \ removed must satisfy Contract (exhaustive), every deviation NOT claimed removed must
@@ -388,6 +421,7 @@ def run(ctx):
 
     with ThreadPoolExecutor(max_workers=5) as ex:
         f_mc = [(c, ex.submit(mc, c)) for c in ([] if skip_mc else fam)]
+        f_mc += [(None, ex.submit(mc, c, cs)) for c, cs in ([] if skip_mc else canc)]
         # quick tier: the exhaustive "nothing is left" run for A+B only; that A alone / B alone remove exactly their share is shown
         # there by the small runs below (each leaves the other's deviations) and exhaustively in the thorough tier
         f_rep = {(n, c): ex.submit(repair_holds, n, c) for n in ([] if skip_mc else REPAIRS) for c in rep_cfgs if thorough or n == "A+B"}
@@ -417,7 +451,9 @@ def run(ctx):
         ctx.transitions += r["generated"]
         if c == cov_cfg:
             # FWaitDone / SWaitDone exist only under the sketched repair A (FixStopDone), which is off in this run
-            zero = sorted(set(r["zero_cov"]) - {"FWaitDone", "SWaitDone"})
+            # the context-ended exits need Cancels # {}: exercised by the -ctx- configurations (no coverage pass there)
+            zero = sorted(set(r["zero_cov"]) - {"FWaitDone", "SWaitDone", "Cancel", "FGiveUp", "FMSendCancel", "FMWaitCancel",
+                                                "SWaitPollCancel", "SESendCancel", "SEWaitCancel", "SXWaitCancel"})
             ctx.extra["zero_coverage_actions"] = zero
             if zero:
                 ctx.note_inconclusive("vacuity: actions never taken in the coverage run: %s" % zero)
@@ -474,7 +510,7 @@ def run(ctx):
                     continue
                 seen.add(line)
                 beh = json.loads(line[len("BEHAVIOUR "):])
-                scenarios.append(scenario(dict(name="sim-" + cfg_name(e, k, q, b, buf, fl, s, faults), emitters=e, recsPer=k,
+                scenarios.append(scenario(dict(name="sim-" + cfg_name(e, k, q, b, buf, fl, s, faults) + ("-ctx" if c in SIM_CANCELS else ""), emitters=e, recsPer=k,
                                                qcap=q, maxbatch=b, bufsize=buf, flushers=fl, stoppers=s,
                                                script=beh["script"], xres=beh["xres"])))
     nbeh = len(scenarios)
@@ -518,6 +554,7 @@ def run(ctx):
     if hooks and bool(counters.get("hooks")) is False:
         ctx.note_inconclusive("harness was built without the c06hooks tag although the tree has the hooks")
     kinds = {}
+    batch_obs = {}
     by_scenario = {}
     kinds_of = {"scripts": {}, "random": {}}    # label -> scenario number -> contract kinds (for the agreement statistics)
     hookfree_unclassified = {}
@@ -544,6 +581,10 @@ def run(ctx):
             scen.reverse()
             name = cfg.get("name", "")
             by_scenario.setdefault(name, set()).add(kind)
+            if kind.startswith("obs-"):
+                # allowed by the statement (a call whose context ended returned an error and promises nothing): counted only
+                batch_obs[kind] = batch_obs.get(kind, 0) + 1
+                continue
             if kind.startswith("hookfree-"):
                 # without the hooks the monitor cannot tell the listed deviations from anything else that loses
                 # a record next to a Shutdown / a failed export: recorded, not a verdict
@@ -552,6 +593,7 @@ def run(ctx):
             ctx.violation({"kind": kind, "source": label},
                           replay={"violation": v, "scenario_name": name, "cfg": cfg, "events": scen[-400:]})
     ctx.extra["violation_kinds_seen"] = kinds
+    ctx.extra["batch_observations"] = batch_obs
     if hookfree_unclassified:
         ctx.extra["hookfree_unclassified"] = hookfree_unclassified
     # pipeline scenarios against the total monitor SLPContract.tla; kinds "obs-*" are observations (the documentation is silent)
@@ -590,7 +632,7 @@ def run(ctx):
         iv = {"scripts": impl_validate(ctx, t1, "scripts", lim[0], kinds_of["scripts"]),
               "random": impl_validate(ctx, t2, "random", lim[1], kinds_of["random"])}
         ctx.extra["impl_trace_validation"] = iv
-        ndrift = sum(len(x["drift"]) for x in iv.values())
+        ndrift = sum(x["drift_count"] for x in iv.values())
         nexpl = sum(x["explained"] for x in iv.values())
         ctx.extra["impl_trace_validation_summary"] = {
             "scenarios": sum(x["scenarios"] for x in iv.values()), "explained_by_BatchLP_actions": nexpl, "model_drift": ndrift,
